@@ -3,6 +3,7 @@
 // direct-oracle verdicts (`orc <id> ok` / `orc <id> FAIL <why>`).
 mod c04;
 mod c06;
+mod shard;
 mod util;
 
 use std::io::{BufRead, Write};
@@ -28,6 +29,7 @@ fn main() {
         let res = std::panic::catch_unwind(|| match stream {
             "c04" => c04::run(&toks[1..]),
             "c06" => c06::run(&toks[1..]),
+            "c09" => shard::run_c09(&toks[1..]),
             _ => panic!("unknown stream"),
         });
         match res {
